@@ -264,21 +264,25 @@ func (n *Node) DataType() *ua.ExpandedNodeID {
 		log.Printf("n was nil!")
 		return ua.NewTwoByteExpandedNodeID(0)
 	}
-	v := n.attr[ua.AttributeIDDataType]
-	if v == nil || v.Value.Value() == nil {
-		// if we have a type definition, return that?
-		for i := range n.refs {
-			r := n.refs[i]
-			if r.ReferenceTypeID == nil {
-				log.Printf("reftypeid was nil!")
-			}
-			if r.ReferenceTypeID.IntID() == id.HasTypeDefinition && r.IsForward {
-				return r.NodeID
-			}
+	// the attribute can be overwritten through the Write service with a value of any type, or with a
+	// DataValue that carries no value: only an ExpandedNodeID is a data type
+	if v := n.attr[ua.AttributeIDDataType]; v != nil && v.Value != nil {
+		if dt, ok := v.Value.Value().(*ua.ExpandedNodeID); ok && dt != nil {
+			return dt
 		}
-		return ua.NewTwoByteExpandedNodeID(0)
 	}
-	return v.Value.Value().(*ua.ExpandedNodeID)
+	// if we have a type definition, return that?
+	for i := range n.refs {
+		r := n.refs[i]
+		if r.ReferenceTypeID == nil {
+			log.Printf("reftypeid was nil!")
+			continue
+		}
+		if r.ReferenceTypeID.IntID() == id.HasTypeDefinition && r.IsForward {
+			return r.NodeID
+		}
+	}
+	return ua.NewTwoByteExpandedNodeID(0)
 }
 
 func (n *Node) SetNodeClass(nc ua.NodeClass) {
